@@ -82,7 +82,17 @@ def call(algo, inp, policy=None):
 
         o.exc = "".join(traceback.format_exception_only(type(exc), exc)).strip() + " @ " + _where(exc)
     o.stderr = err.getvalue()
-    o.ext = [bridge.extract(x) for x in o.outs]
+    try:
+        if len(o.outs) > 60000:
+            raise MemoryError
+        o.ext = [bridge.extract(x) for x in o.outs]
+    except MemoryError:
+        n = len(o.outs)
+        o.outs, o.ext = [], []
+        import gc
+
+        gc.collect()
+        raise SkipCase(f"{algo} returned {n} solutions: too many to extract within the shard's memory limit") from None
     return o
 
 
